@@ -504,6 +504,14 @@ func (w *World) buildPayV2(wl *Wallet, n *Node, chain int) []*PoolTxn {
 		if e.SiacoinOutput.Value.Cmp(types.NewCurrency64(10)) < 0 {
 			break
 		}
+		if t.Chance(1, 4) {
+			// nothing validates the proof attached to an ephemeral parent: some
+			// senders attach rubbish
+			for k := t.Range(1, 4); k > 0; k-- {
+				e.StateElement.MerkleProof = append(e.StateElement.MerkleProof, types.Hash256{byte(k), 0xee})
+			}
+			w.stats.Inc("fault.ephemeral-parent-junk-proof")
+		}
 		var nx types.V2Transaction
 		nx.SiacoinInputs = []types.V2SiacoinInput{{Parent: e}}
 		for i, p := range splitValue(t, e.SiacoinOutput.Value, t.Range(1, 3)) {
